@@ -344,7 +344,30 @@ class Interp:
                         base.pop(self.index(t.slice, fr), None)
             return
         if isinstance(st, ast.Try):
-            self.exec_block(st.body, fr); self.exec_block(st.orelse, fr); self.exec_block(st.finalbody, fr)
+            # Python semantics: handlers catch an interpreted `raise` whose exception class they name (or any, for a bare / Exception handler);
+            # the finally body runs on every way out of the try (fall-through, raise, return, break, continue)
+            try:
+                try:
+                    self.exec_block(st.body, fr)
+                except RaiseSignal as sig:
+                    raised = None
+                    exc = getattr(sig.node, 'exc', None)
+                    if isinstance(exc, ast.Call): exc = exc.func
+                    if exc is not None: raised = ast.unparse(exc).split('.')[-1]
+                    for h in st.handlers:
+                        names = []
+                        if h.type is not None:
+                            names = [ast.unparse(t).split('.')[-1] for t in (h.type.elts if isinstance(h.type, ast.Tuple) else [h.type])]
+                        if h.type is None or 'Exception' in names or 'BaseException' in names or raised is None or raised in names:
+                            if h.name: fr.vars[h.name] = Opaque(f'exception {raised}')
+                            self.exec_block(h.body, fr)
+                            break
+                    else:
+                        raise
+                else:
+                    self.exec_block(st.orelse, fr)
+            finally:
+                self.exec_block(st.finalbody, fr)
             return
         raise AnalysisError(f'{fr.mod.where(st)}: unsupported statement {type(st).__name__}')
 
